@@ -287,4 +287,16 @@ func init() {
 		}
 	}
 	execs["C11"] = func(r *RNG, c *Case) { execs[c.Prop](r, c) }
+	// C15 (sam variants part): windows of `sam variants` - start alone, end alone (an insertion before the first reference
+	// base stays, at position 0), both - per query and aggregated
+	gens["C15sv"] = func(r *RNG, id string) *Case {
+		c := samVarGen(r, id, r.PickInt([]int{2, 2, 5, 0}), true)
+		if r.Chance(1, 4) {
+			c.SetBool("agg", true)
+			thrN, thrD := genThreshold(r, 4)
+			c.SetInt("thrn", thrN).SetInt("thrd", thrD)
+		}
+		return c
+	}
+	execs["C15sv"] = func(r *RNG, c *Case) { execs[c.Prop](r, c) }
 }
